@@ -22,6 +22,11 @@ CHECKS = {
         text="Scale-free TLA+ model of the overlay writer (bufio + per-window fresh/skip scan, flush, crash/resume sessions) model-checked exhaustively at W=4,T=1 over every content relation, write partition and flush/resume point; real writer sessions at the real constants (boundary run lengths, write sizes 1..>window, flushes, crashes with stale bytes) are decoded by an independent framing parser and TLC evaluates the abstract overlay-stream property (tiling, skips only over equal bytes, fresh payload = new bytes, exact checkpoints, patched+truncated result = new) on them and steps the model along the recorded acts (drift).",
         note="old-file reader returns full reads except at EOF; SHA-256 digests stand for byte equality; D runs differ in every byte.",
         technique="TLA+ model checking (TLC) + trace validation of real overlay sessions against the TLA+ overlay-stream property and model"),
+    "C13": dict(
+        level="model_checking", ref="DESIGN.md §4 C13",
+        text="TLA+ model of the wire reader (offsets as framed sums, three-state save protocol, byte-granular and block-boundary sources, pop between messages, resume of a new reader with discard of Offset - sourceOffset) model-checked exhaustively for short streams over every block-boundary placement; real write/read round trips over message-size classes x {none, gzip -2..9, brotli 0..11} with WantSave schedules, PopCheckpoint at every boundary and every popped checkpoint gob-round-tripped into a new reader; TLC evaluates the property on every recorded session and steps the model along it (source = logged environment).",
+        note="payload equality via SHA-256 in the harness; the decompressors (savior gzip/brotli sources) are environment whose checkpoint offsets are bound from the log; ZSTD has no registered compressor.",
+        technique="TLA+ model checking (TLC) + trace validation of real reader sessions against the TLA+ wire model"),
 }
 
 NOT_YET = "check not built yet in this round (planned: DESIGN.md §4); not a claim that the technique cannot apply"
